@@ -32,18 +32,24 @@ type killedHandler struct {
 func (h *killedHandler) handleChildDeath() {
 	if !h.message.Ref.Equals(h.ctx.ref) {
 		// 仅当记录的仍是该终止者本身时才移除：同名子 Actor 可能已被重新创建，不能因旧实例的终止通知而丢失新实例
+		h.ctx.childrenLock.Lock()
 		if child, ok := h.ctx.children[h.message.Ref.GetPath()]; ok && child == h.message.Ref {
 			delete(h.ctx.children, h.message.Ref.GetPath())
 		}
+		childrenCount := len(h.ctx.children)
+		h.ctx.childrenLock.Unlock()
 		h.ctx.executeBehaviorWithRecovery(h.behavior)
-		h.ctx.Logger().Debug("child death", log.Int("children_count", len(h.ctx.children)), log.String("ref", h.ctx.ref.GetPath()), log.String("child", h.message.Ref.GetPath()))
+		h.ctx.Logger().Debug("child death", log.Int("children_count", childrenCount), log.String("ref", h.ctx.ref.GetPath()), log.String("child", h.message.Ref.GetPath()))
 	}
 }
 
 // checkAndMarkKilled 检查并标记为 killed
 func (h *killedHandler) checkAndMarkKilled() {
 	// 如果还有子 Actor，则不处理自身死亡
-	if len(h.ctx.children) != 0 || !atomic.CompareAndSwapInt32(&h.ctx.state, killing, killed) {
+	h.ctx.childrenLock.RLock()
+	childrenCount := len(h.ctx.children)
+	h.ctx.childrenLock.RUnlock()
+	if childrenCount != 0 || !atomic.CompareAndSwapInt32(&h.ctx.state, killing, killed) {
 		h.shouldContinue = false
 		return
 	}
